@@ -4,14 +4,19 @@ Tie: as C02.  Search: paired runs on both backends —
   (a) the same filter on a store and on the store plus / minus non-matching neighbours whose ids,
       authors, kinds, tag values and timestamps are adjacent in byte order to the requested ones;
   (b) a filter and the same filter with one more condition / a narrower window (never more results);
-  (c) a multi-value condition and its single values (union when no limit truncates).
+  (c) a multi-value condition and its single values (union when no limit truncates);
+  (d) a REQ carrying several filters, two or more of them with tag conditions, next to different kinds / authors: its answer is
+      the union of the answers to its filters asked one by one, does not depend on the order of the filters, and does not
+      change when events are stored that match none of the filters (crossed events: the kind / author of one filter with the
+      tag values of another).
 """
 import random
 
 from lib import common, gen, qscen, spec
 
 THEOREMS_TIED = ["C11_kv_residual_monotone", "C11_kv_nonmatching_not_returned", "C11_kv_scan_ignores_outside",
-                 "C11_sql_unrelated_insert", "C11_sql_union"]
+                 "C11_sql_unrelated_insert", "C11_sql_union", "C11_kv_filter_exact", "C11_kv_filter_unrelated_data",
+                 "C11_kv_filter_narrowing", "C11_kv_filter_union"]
 
 REGULAR_KINDS = [1, 7, 4, 2, 6, 65535, 40000]
 
@@ -315,7 +320,241 @@ def same_value_two_names(report, scen, rng):
     report.count("same_value_two_names_stores")
 
 
-def run_case(report, scen, rng):
+# ---------------------------------------------------------------------------------------------------------------------------
+# (d) REQs that carry several filters.  A REQ [f1, f2, ...] is a disjunction of conjunctions: every filter must be answered from
+# its *own* conditions, whatever its neighbours in the REQ name.  The paired runs: the REQ against its filters asked one by
+# one (union), against the same filters in another order, and against the same store plus events that match none of the filters.
+# The events that tell a REQ from a wrong reading of it are the *crossed* ones: kind / author / window of one filter with the tag
+# values of another — they match neither, and any leak of a condition from one filter into another returns them (or loses the
+# proper matches of the filter leaked into).
+
+REQ_NAMES = ["e", "p", "t", "a", "r"]
+REQ_TIMES = [0, 1, 2, 50, 100, 255, 256]
+
+
+def req_vocabulary(rng):
+    """per tag name a small pool of values; some values sit in the pools of two names (the same reference under "e" and "p").
+    Reference-shaped (64 hex digits), plain words related as prefixes, and text that is special inside an SQL statement or a
+    bind-parameter syntax (quote, colon, relay url, NIP-33 coordinate, percent) — all of them ordinary tag values.  The empty
+    string and NUL stay out: both are recorded open classes of the SQL backend (sql-empty-tag-value, sql-nul-in-value)."""
+    refs = [rng.randbytes(32).hex() for _ in range(3)]
+    words = rng.sample(["a", "ab", "abc", "b", "x", "y", "nostr", "A"], 4)
+    texts = rng.sample(["a'b", "x:y", ":w", "wss://relay.example:443/", "30023:" + gen.AUTHORS[3] + ":d", "a b", "%", "é", "tag_0"], 3)
+    names = rng.sample(REQ_NAMES, 3)
+    shared = refs + words + texts
+    pools = {}
+    for n in names:
+        pools[n] = rng.sample(shared, rng.choice([3, 4, 5]))
+    return names, pools
+
+
+def req_filters(rng, names, pools):
+    """2-4 filters; at least two of them carry tag conditions (the same name with different — sometimes overlapping — values,
+    different names, several conditions per filter), next to different kinds / authors; no limits (one LIMIT per REQ is a
+    recorded open class of the SQL backend: the stores below stay under the default limit instead)"""
+    kinds = REGULAR_KINDS[:4]
+    authors = gen.AUTHORS[:4]
+    for _attempt in range(20):
+        n = rng.choice([2, 2, 3, 4])
+        shape = rng.choice(["same-name", "other-names", "several", "mixed"])
+        off = rng.randrange(4)
+        fs = []
+        for i in range(n):
+            f = {}
+            r = rng.random()
+            if r < 0.8:
+                f["kinds"] = [kinds[(off + i) % 4]] if rng.random() < 0.7 else sorted(rng.sample(kinds, 2))
+            if r >= 0.8 or rng.random() < 0.3:
+                f["authors"] = [authors[(off + i) % 4]] if rng.random() < 0.7 else rng.sample(authors, 2)
+            if shape == "same-name":
+                conds = [names[0]]
+            elif shape == "other-names":
+                conds = [names[i % len(names)]]
+            elif shape == "several":
+                conds = rng.sample(names, rng.choice([2, 2, 3]))
+            else:
+                conds = rng.sample(names, rng.choice([0, 1, 1, 2]))
+            for c in conds:
+                pool = pools[c]
+                # filter i starts at "its own" place of the pool, so that neighbours in the REQ mostly ask for other values
+                first = pool[(off + i) % len(pool)]
+                vals = [first] + [v for v in rng.sample(pool, rng.choice([0, 0, 1, 2])) if v != first]
+                f["#" + c] = vals
+            if rng.random() < 0.15:
+                f["until"] = gen.T0 + rng.choice([60, 150, 300])
+            elif rng.random() < 0.1:
+                f["since"] = gen.T0 + rng.choice([1, 40])
+            fs.append(f)
+        tagged = [f for f in fs if any(k.startswith("#") for k in f)]
+        if len(tagged) >= 2 and len({repr(sorted(f.items())) for f in fs}) == len(fs):
+            return shape, fs
+    return shape, fs
+
+
+def req_event(rng, frame, tagged, pools, seen):
+    """an event with the kind / author / window of the filter `frame` and one requested value for every tag condition of
+    the filter `tagged` (the same filter: a match; two different filters: a crossed event)"""
+    lo = frame.get("since", gen.T0 - 1) + 1
+    hi = frame.get("until", gen.T0 + 400) - 1
+    times = [gen.T0 + t for t in REQ_TIMES if lo <= gen.T0 + t <= hi] or [lo]
+    tags = [[k[1], rng.choice(v)] for k, v in sorted(tagged.items()) if k.startswith("#")]
+    if rng.random() < 0.3 and pools:
+        n = rng.choice(sorted(pools))
+        tags.append([n, rng.choice(pools[n])])
+    rng.shuffle(tags)
+    i = gen.mkid(rng)
+    while i in seen:
+        i = gen.mkid(rng)
+    seen.add(i)
+    return {"id": i, "pubkey": rng.choice(frame.get("authors") or gen.AUTHORS[:4]), "created_at": rng.choice(times),
+            "kind": rng.choice(frame.get("kinds") or REGULAR_KINDS[:4]), "tags": tags, "content": "", "sig": "00" * 64}
+
+
+def req_store(rng, scen, fs, pools, budget):
+    """(store, events that match none of the filters and are held back as later neighbours).  The store holds matches of
+    every filter, crossed events for pairs of filters and a few free combinations of the vocabulary; at most `budget` events
+    in all, so that the one LIMIT of a REQ (the configured maximum, 20 in the harness) cannot truncate anything"""
+    qs = [scen.kv.validate(dict(f)) for f in fs]
+    seen = set()
+    evs = []
+    for f in fs:
+        for _ in range(rng.choice([1, 1, 2])):
+            evs.append(req_event(rng, f, f, pools, seen))
+    pairs = [(i, j) for i in range(len(fs)) for j in range(len(fs)) if i != j]
+    rng.shuffle(pairs)
+    for i, j in pairs[:rng.randint(2, 6)]:
+        evs.append(req_event(rng, fs[i], fs[j], pools, seen))
+    for _ in range(rng.randint(0, 3)):
+        free = {"#" + n: pools[n] for n in rng.sample(sorted(pools), rng.choice([1, 2]))}
+        evs.append(req_event(rng, {}, free, pools, seen))
+    evs = evs[:budget]
+    rng.shuffle(evs)
+
+    def unrelated(e):
+        return all(q is not None and not spec.matches(q, e, False) for q in qs)
+    strangers = [e for e in evs if unrelated(e)]
+    held = strangers[:len(strangers) // 2]
+    store = [e for e in evs if not any(e is h for h in held)]
+    # more neighbours of every single filter (byte-adjacent values, neighbouring names ...), kept when they match no filter
+    more = []
+    for f in fs:
+        for e in neighbours_of(rng, f, store)[:3]:
+            if unrelated(e) and e["id"] not in seen:
+                seen.add(e["id"])
+                more.append(e)
+    room = max(0, budget - len(store) - len(held))
+    return store, held + more[:room]
+
+
+def req_answer(scen, backend, fs):
+    """the answer to one REQ carrying the filters `fs` on one backend: {"ids", "ts", "open" (no limit truncates), "cls"};
+    None when the backend does not answer (a refused filter, no plan)"""
+    fs = [dict(f) for f in fs]
+    if backend == "sql":
+        rec = scen.ask_sql(fs)
+        if rec is None or rec["ids"] is None or len(rec.get("cleaned") or []) != len(fs):
+            return None
+        return {"backend": "sql", "ids": list(rec["ids"]), "ts": rec["ts"], "open": untruncated(rec), "cls": classify(rec)}
+    res = scen.kv.ask_req(fs)
+    if res is None or len(res) != len(fs):
+        return None
+    from props.c02 import classify_kv
+    ids, open_, cls = set(), True, None
+    for f, got, alone in res:
+        ids |= set(got)
+        q = scen.kv.validate(dict(f))
+        lim = alone.get("limit")
+        if lim is not None and sum(1 for e in scen.events if spec.matches(q, e, False)) >= lim:
+            open_ = False
+        cls = cls or classify_kv({"filters": [f], "index": alone.get("index"), "events": scen.events})
+    return {"backend": "kv", "ids": sorted(ids), "ts": {i: e["created_at"] for i, e in scen.by_id.items()}, "open": open_, "cls": cls}
+
+
+def req_place(evs, nb, placement):
+    if placement == "before":
+        return nb + evs
+    if placement == "after":
+        return evs + nb
+    out, a, b = [], list(evs), list(nb)
+    while a or b:
+        if a:
+            out.append(a.pop(0))
+        if b:
+            out.append(b.pop(0))
+    return out
+
+
+def req_checks(report, scen, evs, fs, nb, order, placement, only=None):
+    """the three paired runs of one multi-filter REQ, on both backends"""
+    backends = [b for b in ("kv", "sql") if only in (None, b)]
+
+    def payload(backend, kind):
+        return {"backend": backend, "filters": fs, "events": evs, "neighbours": nb, "order": order, "placement": placement, "kind": kind}
+    tagged = sum(1 for f in fs if any(k.startswith("#") for k in f))
+    scen.load(evs)
+    base = {}
+    for backend in backends:
+        whole = req_answer(scen, backend, fs)
+        if whole is None or not whole["open"]:
+            continue
+        base[backend] = whole
+        got = inside(whole, *fs)
+        sample = {"backend": backend, "filters": len(fs), "with_tag_conditions": tagged, "answer": len(whole["ids"]), "events": len(evs)}
+        # the answer to [f1, f2, ...] is the union of the answers to [f1], [f2], ...
+        parts = [req_answer(scen, backend, [f]) for f in fs]
+        if all(p is not None and p["open"] for p in parts):
+            union = set().union(*[inside(p, *fs) for p in parts])
+            if union != got:
+                cls = whole["cls"] or next((p["cls"] for p in parts if p["cls"]), None)
+                report.property_failure(
+                    "%s: the answer to the REQ %r is not the union of the answers to its filters asked one by one: %d missing, %d extra"
+                    % (backend, fs, len(union - got), len(got - union)), payload(backend, "req-union"), cls)
+            report.case(("req-union", backend, repr(fs), len(evs)), nontrivial=len(union) > 0, sample=sample)
+            report.count("req_union_" + backend)
+        # ... and does not depend on the order of the filters
+        other = req_answer(scen, backend, [fs[i] for i in order])
+        if other is not None and other["open"]:
+            if inside(other, *fs) != got:
+                report.property_failure(
+                    "%s: the REQ %r is answered differently when its filters come in the order %r: %d only in the first, %d only in the second"
+                    % (backend, fs, order, len(got - inside(other, *fs)), len(inside(other, *fs) - got)),
+                    payload(backend, "req-order"), whole["cls"] or other["cls"])
+            report.case(("req-order", backend, repr(fs), repr(order), len(evs)), nontrivial=len(got) > 0, sample=sample)
+            report.count("req_order_" + backend)
+    if not nb or not base:
+        return
+    # ... nor on stored events that match none of the filters
+    scen.load(req_place(evs, nb, placement))
+    for backend, whole in base.items():
+        after = req_answer(scen, backend, fs)
+        if after is None or not after["open"]:
+            continue
+        b, a = inside(whole, *fs), inside(after, *fs)
+        if a != b:
+            report.property_failure(
+                "%s: adding %d events that match none of the filters changed the answer to the REQ %r: lost %d, gained %d"
+                % (backend, len(nb), fs, len(b - a), len(a - b)), payload(backend, "req-unrelated"), after["cls"] or whole["cls"])
+        report.case(("req-unrelated", backend, repr(fs), len(evs), len(nb)), nontrivial=len(b) > 0,
+                    sample={"backend": backend, "filters": len(fs), "with_tag_conditions": tagged, "answer": len(b), "neighbours": len(nb)})
+        report.count("req_unrelated_" + backend)
+
+
+def multi_filter_reqs(report, scen, rng, budget=18):
+    names, pools = req_vocabulary(rng)
+    shape, fs = req_filters(rng, names, pools)
+    evs, nb = req_store(rng, scen, fs, pools, budget)
+    order = list(range(len(fs)))
+    while order == list(range(len(fs))):
+        rng.shuffle(order)
+    placement = rng.choice(["before", "after", "between"])
+    req_checks(report, scen, evs, fs, nb, order, placement)
+    report.count("req_shape_" + shape)
+    report.count("multi_filter_reqs")
+
+
+def run_case(report, scen, rng, tier="quick"):
+    for _ in range(2 if tier == "quick" else 4):
+        multi_filter_reqs(report, scen, rng)
     adjacent_blocks(report, scen, rng)
     if rng.random() < 0.5:
         same_value_two_names(report, scen, rng)
@@ -341,7 +580,10 @@ def replay_one(report, scen, r):
     rng = random.Random(0)
     kind = r.get("kind", "unrelated")
     f = r["filters"][0]
-    if kind == "unrelated":
+    if kind.startswith("req-"):
+        req_checks(report, scen, r["events"], r["filters"], r.get("neighbours", []), r["order"], r.get("placement", "after"),
+                   only=r["backend"])
+    elif kind == "unrelated":
         scen.load(r["events"])
         base = ask_both(scen, f)
         scen.load(r["events"] + r.get("neighbours", []))
@@ -372,14 +614,18 @@ def run(report, tier, seed):
         "stores of regular-kind events x filters from stored values; (a) neighbours adjacent in byte order (ids/authors "
         "+-1 in first/middle/last byte, kinds +-1/+-256/+65536, tag values extended/shortened/NUL-suffixed/doubled/"
         "upper-cased, neighbouring tag names, timestamps just outside since/until) inserted before, after or between; "
-        "(b) one added condition or narrower window; (c) split of a multi-value condition; pairs are compared as id sets "
+        "(b) one added condition or narrower window; (c) split of a multi-value condition; (d) REQs of 2-4 filters, at least "
+        "two with tag conditions (same name / other names / several conditions per filter; reference-shaped values, words "
+        "related as prefixes, text with quotes and colons) over stores of matches, crossed events (kind / author of one "
+        "filter, tag values of another) and free combinations: the REQ vs its filters one by one (union), vs another order "
+        "of the filters, vs the store plus events matching none of the filters; pairs are compared as id sets "
         "when no limit truncates; non-trivial = the base answer is non-empty")
     report.assumptions += ["neighbour events use regular kinds only (no replaceable/deletion side effects)"]
     try:
         for e in report.known:
             replay_one(report, scen, common.load_finding_replay(e))
         for i in range(14 if tier == "quick" else 300):
-            run_case(report, scen, rng)
+            run_case(report, scen, rng, tier)
     finally:
         scen.close()
         drv.close()
